@@ -306,7 +306,7 @@ class C16Saturate(Scenario):
 SPEC = PropSpec(
     prop="C16",
     scenarios=[(1, C16Saturate)],
-    runs={"quick": 20000, "thorough": 600000},
+    runs={"quick": 100000, "thorough": 2500000},
     rule=("one run = a tiny CountingBloomFilter (<=40 cells, half of the runs with a range-squeezed hash so that a key's "
           "positions coincide) or a width 1..3 x depth 1..3 sketch (min, mean, heavy hitters, threshold) and <=8 steps "
           "over 3 keys with amounts from {1,2,2^31-2..2^31,2^32-2..2^32,2^63,2^64,2^70}: add, remove, union/join with a "
